@@ -280,6 +280,23 @@ def concretize(x, depth=0):
     return x
 
 
+def _symbolic_obj(*objs):
+    for o in objs:
+        if isinstance(o, (A, S, T, Shape, Dep)) or getattr(o, "__nss_stub__", False) or getattr(o, "__nss_symbolic__", False):
+            return True
+        if isinstance(o, (tuple, list)) and any(_symbolic_obj(x) for x in o):
+            return True
+    return False
+
+
+def classify(ex, *objs):
+    """an exception thrown while operating on symbolic values / harness stubs because the operation
+    is not modelled is a limit of the verifier (Unsupported -> undecided), not program behaviour"""
+    if isinstance(ex, (TypeError, AttributeError, NotImplementedError)) and _symbolic_obj(*objs):
+        return Unsupported("operation not modelled on symbolic value: %s: %s" % (type(ex).__name__, ex))
+    return UserRaise(ex)
+
+
 class Interp:
     def __init__(self, src_root, overrides=None, max_paths=64, feas_timeout_ms=3000, inline=True):
         from . import npmodel
@@ -565,7 +582,7 @@ class Interp:
         except (Unsupported, UserRaise, ReturnEx, PathLimit, ShapeError):
             raise
         except Exception as ex:  # exception of the program under analysis
-            raise UserRaise(ex)
+            raise classify(ex, getattr(fn, "__self__", None), args, list(kwargs.values()))
 
     def instantiate(self, cls, args, kwargs):
         init = getattr(cls, "__init__", None)
@@ -758,7 +775,7 @@ class Interp:
 
             if isinstance(obj, np.ndarray):
                 v = concretize(v)
-            if has_sym(idx) and not isinstance(obj, dict):
+            if has_sym(idx) and not isinstance(obj, dict) and not getattr(obj, "__nss_stub__", False):
                 raise Unsupported("store into concrete %s through symbolic index" % type(obj).__name__)
             import numpy as np
 
@@ -769,7 +786,7 @@ class Interp:
         except (Unsupported, ShapeError, SymBranch):
             raise
         except Exception as ex:
-            raise UserRaise(ex)
+            raise classify(ex, obj, idx, v)
 
     def x_AugAssign(self, s, fr):
         op = IBINOPS[type(s.op)]
@@ -811,7 +828,7 @@ class Interp:
         except ShapeError as se:
             raise UserRaise(ValueError(str(se)))
         except Exception as ex:
-            raise UserRaise(ex)
+            raise classify(ex, a, b)
 
     def x_Delete(self, s, fr):
         for t in s.targets:
@@ -1041,7 +1058,7 @@ class Interp:
         except (Unsupported, SymBranch):
             raise
         except AttributeError as ex:
-            if isinstance(obj, (A, S, T, Shape, Dep)):
+            if isinstance(obj, (A, S, T, Shape, Dep)) or getattr(type(obj), "__nss_symbolic__", False):
                 # a numpy attribute the symbolic classes do not model: a limit of the verifier, not of the program
                 raise Unsupported("attribute %r of a symbolic %s" % (name, type(obj).__name__))
             raise UserRaise(ex)
@@ -1083,7 +1100,7 @@ class Interp:
         except ShapeError as se:
             raise UserRaise(IndexError(str(se)))
         except Exception as ex:
-            raise UserRaise(ex)
+            raise classify(ex, obj, idx)
 
     def e_Subscript(self, e, fr):
         obj = self.ev(e.value, fr)
@@ -1135,7 +1152,7 @@ class Interp:
         except (Unsupported, SymBranch):
             raise
         except Exception as ex:
-            raise UserRaise(ex)
+            raise classify(ex, v)
 
     def e_BoolOp(self, e, fr):
         if isinstance(e.op, ast.And):
@@ -1191,7 +1208,7 @@ class Interp:
                 except ShapeError as se:
                     raise UserRaise(ValueError(str(se)))
                 except Exception as ex:
-                    raise UserRaise(ex)
+                    raise classify(ex, left, right)
             if len(e.ops) == 1:
                 return r
             if not self.truth(r):
